@@ -74,21 +74,53 @@ def RHost.run (ops : List HostOp) : RHost × List Sent := RHost.runFrom lower et
 def Sent.current (o : Sent) : Bool :=
   (o.2.1 ++ o.2.2).all (fun r => o.1.any (fun s => (RespSpec.own lower ettl s).contains r))
 
-/-- the finding's signature, negated: at an `update` / `unregister` no pending reply holds a record that only the
-changed service owns (and attribute writes come as `update`) -/
+/-- `r` is a record of a service of the abstract registry `spec` -/
+def ownedBy (spec : List Svc) (r : Rec) : Bool := spec.any (fun o => (RespSpec.own lower ettl o).contains r)
+
+/-- **D20's input class, negated**, at `async_update_service(s)`: every pending record *of the registered service that `s`
+replaces* is still a record of a registered service after the update (a no-op update, a new port while only the PTR is pending,
+…).  Records of other services are not restricted. -/
+def updateOk (h : RHost) (s : Svc) : Bool :=
+  match sget lower (lower s.name) h.reg.services with
+  | none => true
+  | some old =>
+    let after := RegSpec.step lower (h.reg.services.map Svc.clearMemo) (.update s)
+    h.pending.all (fun d => (recordsOf d).all (fun r =>
+      !((RespSpec.own lower ettl old.clearMemo).contains r) || ownedBy lower ettl after r))
+
+/-- the records of the withdrawn service that `async_unregister_service` does **not** purge from the queues: the
+type-enumeration pointer (D20b) and — when another service stays on the host — its address and NSEC records (D20c) -/
+def unpurged (old : Svc) (shared : Bool) : List Rec :=
+  RespSpec.enumPtr ettl (lower old.type) :: (if shared then RespSpec.addrsOf old ++ RespSpec.nsecOf old else [])
+
+/-- **D20b / D20c's input class, negated**, at `async_unregister_service` of the service registered under `k`: every record of
+that class that is still pending *after the purge* is a record of a service that stays registered (another service of the same
+type for the enumeration pointer; another service with the same address and TTL on the host) -/
+def unregisterOneOk (h : RHost) (k : String) : Bool :=
+  match sget lower k h.reg.services with
+  | none => true
+  | some old =>
+    let h' := h.unregisterOne lower ettl k
+    let shared := (dget (old.serverKey lower) h'.reg.servers).isSome
+    h'.pending.all (fun d => (recordsOf d).all (fun r =>
+      !((unpurged lower ettl old.clearMemo shared).contains r) || ownedBy lower ettl (h'.reg.services.map Svc.clearMemo) r))
+
+def unregisterOk (h : RHost) : List String → Bool
+  | [] => true
+  | k :: ks => unregisterOneOk lower ettl h k && unregisterOk (h.unregisterOne lower ettl k) ks
+
+/-- the three recorded findings' input classes, negated, per operation (attribute writes come as `update`, as in
+`C03_transmitted_current`) -/
 def changeOk (h : RHost) : HostOp → Bool
-  | .api (.update s) =>
-    h.pending.all (fun d => (recordsOf d).all (fun r =>
-      (h.reg.services.map Svc.clearMemo).any (fun o => !decide (lower o.name = lower s.name) && (RespSpec.own lower ettl o).contains r)))
-  | .api (.unregister ks) =>
-    h.pending.all (fun d => (recordsOf d).all (fun r =>
-      (h.reg.services.map Svc.clearMemo).any (fun o => !(ks.contains (lower o.name)) && (RespSpec.own lower ettl o).contains r)))
+  | .api (.update s) => updateOk lower ettl h s
+  | .api (.unregister ks) => unregisterOk lower ettl h ks
   | .api (.mutate _ _) => false
   | _ => true
 
-def noReplyQueuedForChanged (h : RHost) : List HostOp → Bool
+/-- no operation of the history is in the input class of D20, D20b or D20c -/
+def noSupersededReplyQueued (h : RHost) : List HostOp → Bool
   | [] => true
-  | op :: rest => changeOk lower ettl h op && noReplyQueuedForChanged (h.step lower ettl op).1 rest
+  | op :: rest => changeOk lower ettl h op && noSupersededReplyQueued (h.step lower ettl op).1 rest
 
 end
 end Zc
